@@ -4,3 +4,4 @@ pub mod jfun;
 pub mod lin;
 pub mod path;
 pub mod sym;
+pub mod posfmt;
